@@ -391,4 +391,31 @@ example : SharedCall exCProgram 0 exCValue (.src 1) := by
   · rfl
   · exact .call (c := .ident) (m := 1) rfl rfl rfl rfl (.ident (by simp [allLocs, allLocs.locsList]))
 
+/-! ### end to end on the unnamed (struct) fragment: the generated method deep-copies, for all values -/
+
+open Gv.Typing Gv.Sound Gv.Spec in
+/-- **C04 end to end on FS.**  For a converter with one declared method on the fragment FS (hypotheses of
+`C02_end_to_end_unnamed_struct_fragment`): if `generate` succeeds, every reference cell of whatever the generated method returns
+was allocated during the call, no cell occurs twice, and no cell of the caller's input is part of the result – without the
+run-time plan check (`checkProg` of the generated table is `Gv.Gen.generate_sound_struct_fragment`). -/
+theorem C04_end_to_end_unnamed_struct_fragment (c : Converter) (d : Declared) (z : Bool) (fuel rounds : Nat)
+    (hup : d.updateTarget = false) (hraw : d.cfg.rawFieldSettings = []) (hctor : d.cfg.constructor = none)
+    (hs : inFS d.source = true) (ht : inFS d.target = true)
+    (hfuel : 2 * (tySize d.source + tySize d.target) < fuel) (hrounds : 2 ≤ rounds)
+    (hext : c.extend = [])
+    (hu : d.cfg.common.useUnderlying = false) (hsk : d.cfg.common.skipCopySameType = false)
+    (hz : d.cfg.common.useZeroValue = z)
+    (h1 : d.cfg.common.matchIgnoreCase = false) (h2 : d.cfg.common.ignoreMissing = false)
+    (h3 : d.cfg.fields = []) (h4 : d.cfg.autoMap = [])
+    (ha1 : aliasFree d.source = true) (ha2 : aliasFree d.target = true) (ha3 : arrayElemFree false d.source = true)
+    (ha4 : structsOK d.target = true)
+    (ms : List GenMethod) (hgen : generate c [d] fuel rounds = .ok ms)
+    (efuel : Nat) (v : Val) (n : Nat) (v' : Val) (n' : Nat) (hwt : WT c.env v d.source)
+    (hev : callMethod { conv := c, methods := ms } efuel 0 v [] n = .ok (v', n')) :
+    AllocL n n' (allLocs v') ∧ ∀ k, Loc.src k ∉ allLocs v' := by
+  obtain ⟨hchk, hsig, _⟩ := generate_sound_struct_fragment c d z fuel rounds hup hraw hctor hs ht hfuel hrounds hext hu hsk hz
+    h1 h2 h3 h4 ha1 ha2 ha3 ha4 ms hgen
+  exact ⟨C04_composite { conv := c, methods := ms } hchk efuel 0 d.source d.target v n v' n' hsig hwt hev,
+    C04_no_source_cell { conv := c, methods := ms } hchk efuel 0 d.source d.target v n v' n' hsig hwt hev⟩
+
 end Gv.Props.C04
